@@ -449,9 +449,13 @@ on the last directory), and `check_for_existence` on the last directory is cover
   (`p = DirSlots.findFree slots n`) and the slots of the directory in `d'.img` equal to
   `DirSlots.writeEntry (slots in d.img) units raw.serialize` — inside the allocated space, or after the chain has grown
   by one zero-filled cluster;
-* **(W1-frame)**: every byte of `d'.img` outside the slots `[p, p+n)` of that directory (and, on growth, outside the
-  new cluster and its two FAT entries per copy) equals `d.img`; `d'.fs = d.fs`, no fault scheduled — so that every
-  OTHER `DirView` of `d` is a `DirView` of `d'` with the same entries (re-establishing `ImgTree`);
+* **(W1-frame)** (as delivered by agent-effects, `Proofs/DirWriteSim13`: `WView.writeEntry_sim`): NOT "`d'.fs = d.fs`
+  and every other byte equal" — the first write marks the volume dirty (status byte in the image, `fs.curDirty`).
+  What holds and suffices: `VolStep d d'` (fault schedule, image size and `Img.WF` kept, `FsGeomEq d.fs d'.fs`: the
+  geometry part of `fs` equal) and `FrameOutG N src d d'` (every byte at offset ≥ 0x42 outside ALL slots of the written
+  directory unchanged) — so that every OTHER directory's slots are unchanged (`srcSlots_frame`), the FAT is unchanged
+  (`fatAgree_of_frame`), and its `DirView` carries over (`ChainDir.of_agree`, `RootReadable.of_volStep`),
+  re-establishing `ImgTree` on `d'`;
 * **(W2) `createSfnEntry_sim`**: `createSfnEntry sn attrs first` returns a record whose serialisation is
   `sfnWith sn (attrs :: stamp)` for the 20 bytes `stamp` the clock and `first` determine;
 * **(W3) `deleteEntry_sim`** (+ frame), for `remove`/`rename`: the slots become `DirSlots.deleteRange slots b e`;
